@@ -38,8 +38,13 @@ def faultOf (b : Bytes) : Fault :=
 
 def controlsOf (fs : List Bytes) : Controls :=
   let has (c : UInt8) (i : Nat) : Option Bytes := if (fld fs 0).contains c then some (fld fs i) else none
+  -- with neither control/me nor control/locals the harness supplies locals = "localhost" (getcontrols() would refuse to start)
+  let loc : Option Bytes := match has 108 7, has 109 1 with
+    | some l, _ => some l
+    | none, some _ => none
+    | none, none => some (str "localhost\n")
   { me := has 109 1, bouncefrom := has 102 2, bouncehost := has 104 3, doublebounceto := has 116 4,
-    doublebouncehost := has 100 5, virtualdomains := has 118 6 }
+    doublebouncehost := has 100 5, virtualdomains := has 118 6, locals := loc }
 
 /-- spec-side VERP base, written independently of `verpBase`: drop a final "-@[]" -/
 def specBase (s : Bytes) : Bytes :=
@@ -55,8 +60,8 @@ def isSuffix (a b : Bytes) : Bool := a.reverse.isPrefixOf b.reverse
 def dropTrailingLF (t : Bytes) : Bytes := (t.reverse.dropWhile (· == LF)).reverse
 
 /-- oracle for one recipient paragraph as written by the implementation -/
-def paragraphOK (es : List (Bytes × Bytes)) (recip report text : Bytes) : Option String :=
-  let hdr := recipLine (namedRecipient es recip)
+def paragraphOK (es : Tables) (recip report text : Bytes) : Option String :=
+  let hdr := recipLine (namedRecipient es.locals es.vdoms recip)
   let rep' := if !report.isEmpty && report.getLast? != some LF then report ++ [LF] else report
   let body := text.drop hdr.length
   if (paragraphs text).length != 1 then some "not-exactly-one-paragraph"
@@ -91,7 +96,7 @@ def noticeOK (cfg : Cfg) (sender mess : Bytes) (fails : List (Bytes × Bytes)) (
   -- domain part verbatim); the count of the header paragraphs is then not 2, the recipient paragraphs are
   -- still checked from the end
   else if !hasLFLF (Quote.quote2 toAddr ++ [LF]) && ps.length != n + 2 then some "paragraph-count-differs-from-failed-recipients"
-  else if !(List.zip fails rcptParas).all (fun (fr, p) => (recipLine (namedRecipient cfg.vdoms fr.1)).isPrefixOf p)
+  else if !(List.zip fails rcptParas).all (fun (fr, p) => (recipLine (namedRecipient cfg.locals cfg.vdoms fr.1)).isPrefixOf p)
     then some "paragraph-does-not-name-its-recipient"
   else none
 
@@ -122,18 +127,23 @@ def agreeRes (r : Res) (ret q : Bool) (f : Bytes) (t : List Bytes) (body : Optio
 
 def handleP (o : Out) (blobh : String) (blob stripped text : Bytes) : Out := Id.run do
   let fs := splitNul blob
-  let es := cmEntries (readfile (fld fs 0))
+  let es : Tables := { locals := readfile (fld fs 4), vdoms := cmEntries (readfile (fld fs 0)) }
   let recip := fld fs 1
   let report := fld fs 2
   let mut o := o
   o := { o with st := o.st.bump "kindP" }
+  match domainPart recip with
+  | some d =>
+    if isLocal es.locals d then o := { o with st := o.st.bump "P_local_domain" }
+    else if (userSplit es.vdoms recip).isSome then o := { o with st := o.st.bump "P_virtual_user" }
+  | none => pure ()
   let ms := stripvdom es recip
   let mt := addbounceText es recip report
   if ms != stripped || mt != text then
     o := o.dis s!"in={blobh} kind=P impl={hex stripped} {hex text} model={hex ms} {hex mt}"
   if stripped != recip then o := { o with st := o.st.bump "P_prefix_removed" }
-  if stripped != namedRecipient es recip then
-    o := o.ora s!"in={blobh} kind=P why=virtual-domain-prefix-not-removed-as-specified stripped={hex stripped} spec={hex (namedRecipient es recip)}"
+  if stripped != namedRecipient es.locals es.vdoms recip then
+    o := o.ora s!"in={blobh} kind=P why=virtual-domain-prefix-not-removed-as-specified stripped={hex stripped} spec={hex (namedRecipient es.locals es.vdoms recip)}"
   match paragraphOK es recip report text with
   | some why => o := o.ora s!"in={blobh} kind=P why={why} text={hex text}"
   | none => pure ()
@@ -144,7 +154,7 @@ def handleD (o : Out) (blobh : String) (blob appended : Bytes) : Out := Id.run d
   let dying := (fld fs 0).head? == some 49
   let recip := fld fs 1
   let raw := fld fs 2
-  let es := cmEntries (readfile (fld fs 4))
+  let es : Tables := { locals := readfile (fld fs 5), vdoms := cmEntries (readfile (fld fs 4)) }
   let mut o := o
   o := { o with st := o.st.bump "kindD" }
   let rep := delReport dying (1 :: raw)
@@ -158,7 +168,7 @@ def handleD (o : Out) (blobh : String) (blob appended : Bytes) : Out := Id.run d
   if want then
     if appended == ABSENT then o := o.ora s!"in={blobh} kind=D why=permanent-failure-not-recorded"
     else if (paragraphs appended).length != 1 then o := o.ora s!"in={blobh} kind=D why=not-exactly-one-paragraph text={hex appended}"
-    else if !(recipLine (namedRecipient es recip)).isPrefixOf appended then
+    else if !(recipLine (namedRecipient es.locals es.vdoms recip)).isPrefixOf appended then
       o := o.ora s!"in={blobh} kind=D why=does-not-start-with-recipient-line text={hex appended}"
     else if raw.length + 1 < Gen.REPORTMAX && st == some 68 then
       match paragraphOK es recip (raw.drop 1) appended with
@@ -172,14 +182,14 @@ def handleI (o : Out) (id : Nat) (blobh : String) (blob : Bytes) (bfile : Option
     (ret2 q2 : Bool) (f2 : Bytes) (t2 : List Bytes) (body2 : Option Bytes) (left2 : Bool) : Out := Id.run do
   let fs := splitNul blob
   let cfg := getcontrols (controlsOf fs)
-  let fault := faultOf (fld fs 7)
-  let sender := fld fs 8
-  let mess := fld fs 9
-  let fails := pairsFrom (fs.drop 10)
+  let fault := faultOf (fld fs 8)
+  let sender := fld fs 9
+  let mess := fld fs 10
+  let fails := pairsFrom (fs.drop 11)
   let mut o := o
-  o := { o with st := (o.st.bump "kindI").bump ("fault_" ++ String.ofList [Char.ofNat ((fld fs 7).headD 45).toNat]) }
+  o := { o with st := (o.st.bump "kindI").bump ("fault_" ++ String.ofList [Char.ofNat ((fld fs 8).headD 45).toNat]) }
   -- model
-  let mb := if fails.isEmpty then none else some (bounceFile cfg.vdoms fails)
+  let mb := if fails.isEmpty then none else some (bounceFile cfg.tables fails)
   if mb != bfile then
     o := o.dis s!"in={blobh} kind=I what=bouncefile impl={match bfile with | some b => hex b | none => "absent"} model={match mb with | some b => hex b | none => "absent"}"
   let r1 := inject cfg DATE id QP fault sender mb mess
@@ -199,7 +209,7 @@ def handleI (o : Out) (id : Nat) (blobh : String) (blob : Bytes) (bfile : Option
     let ps := paragraphs b
     if ps.length != fails.length then
       o := o.ora s!"in={blobh} kind=I why=bounce-file-paragraphs-differ-from-failed-recipients n={ps.length} fails={fails.length} file={hex b}"
-    else if !(List.zip fails ps).all (fun (fr, p) => (recipLine (namedRecipient cfg.vdoms fr.1)).isPrefixOf p) then
+    else if !(List.zip fails ps).all (fun (fr, p) => (recipLine (namedRecipient cfg.locals cfg.vdoms fr.1)).isPrefixOf p) then
       o := o.ora s!"in={blobh} kind=I why=bounce-file-paragraph-does-not-name-its-recipient file={hex b}"
   | none => if !fails.isEmpty then o := o.ora s!"in={blobh} kind=I why=failures-not-recorded"
   match envelopeOK cfg sender q f t with
@@ -235,9 +245,9 @@ def handleI (o : Out) (id : Nat) (blobh : String) (blob : Bytes) (bfile : Option
 def handleC (o : Out) (blobh : String) (blob : Bytes) (n : Nat) (s0 : Bytes) (env : List (Bytes × Bytes)) : Out := Id.run do
   let fs := splitNul blob
   let cfg := getcontrols (controlsOf fs)
-  let sender := fld fs 8
-  let mess := fld fs 9
-  let fails := pairsFrom (fs.drop 10)
+  let sender := fld fs 9
+  let mess := fld fs 10
+  let fails := pairsFrom (fs.drop 11)
   let mut o := o
   o := { o with st := (o.st.bump "kindC").bump s!"chain_len_{n}" }
   -- model chain: every generated message fails permanently at its single recipient
@@ -251,8 +261,8 @@ def handleC (o : Out) (blobh : String) (blob : Bytes) (n : Nat) (s0 : Bytes) (en
       | none => acc.reverse
       | some m' =>
         let t := m'.rcpts.headD []
-        go fuel m' (some (addbounceText cfg.vdoms t chainReport)) ((m'.sender, t) :: acc)
-  let mchain := go 6 m0 (if fails.isEmpty then none else some (bounceFile cfg.vdoms fails)) []
+        go fuel m' (some (addbounceText cfg.tables t chainReport)) ((m'.sender, t) :: acc)
+  let mchain := go 6 m0 (if fails.isEmpty then none else some (bounceFile cfg.tables fails)) []
   if mchain != env || s0 != sender || n != env.length then
     o := o.dis s!"in={blobh} kind=C impl={env.map (fun (a, b) => hex a ++ ">" ++ hex b)} model={mchain.map (fun (a, b) => hex a ++ ">" ++ hex b)}"
   -- oracle: the chain message -> bounce -> double bounce -> nothing
@@ -295,6 +305,7 @@ def handle (st : Stats) (line : String) : IO Stats := do
       let o := handleP { st := st } blobh blob s t
       let fs := splitNul blob
       let nontriv := s != fld fs 1 || hasLFLF (fld fs 2) || (fld fs 2).head? == some LF || (fld fs 1).contains LF
+        || (match domainPart (fld fs 1) with | some d => isLocal (readfile (fld fs 4)) d | none => false)
       finish o blob nontriv s!"kind=P in={blobh} stripped={sh} text={th}"
     | _, _, _ => bad
   | ["D", blobh, ah] =>
@@ -317,6 +328,9 @@ def handle (st : Stats) (line : String) : IO Stats := do
         | none => bad
       | _, _, _, _, _, _, _ => bad
     | _, _, _, _, _, _, _, _ => bad
+  | ["X", kind, blobh] =>
+    IO.println s!"ORACLE in={blobh} kind={kind} why=implementation-crashed-or-sanitizer-error-on-this-input"
+    return { st with cases := st.cases + 1, oracle := st.oracle + 1 }
   | "C" :: blobh :: ns :: s0h :: rest =>
     match unhex blobh, ns.toNat?, unhex s0h, rest.mapM unhex with
     | some blob, some n, some s0, some envl =>
